@@ -13,3 +13,5 @@ TECHNIQUE = "contract-based deductive verification (VCs from the ast of the real
 UNITS = [SQ.unit_integer_sql_ansi_type(), SQ.unit_other_sql_ansi_types(), SQ.unit_assert_is_valid_ansi_type(), SQ.unit_dialect_sql_type(), SQ.unit_sql_fields(), SQ.unit_is_keyword(), SQ.unit_create_table_statement(), SQ.unit_c19_table(), TOK.unit_sweep_decimal_text()] + RD.units_decimal_range_init()
 from contracts import ranges_init as RI
 UNITS += RI.units_range_init(shapes=[(1, 1, 1)], props=("C01", "C19"))
+from contracts import structure as ST
+UNITS += [ST.unit_no_hidden_state()]
